@@ -172,6 +172,7 @@ func (f *kindFlow) wrapOf(v ssa.Value, s *kindState, depth int) wrapState {
 	case *ssa.Phi:
 		// only the edges that are feasible in this world count
 		res, n := wNo, 0
+		var yes, no []ssa.Value
 		for i, e := range x.Edges {
 			if f.feas != nil && !f.feas[[2]*ssa.BasicBlock{x.Block().Preds[i], x.Block()}] {
 				continue
@@ -180,12 +181,27 @@ func (f *kindFlow) wrapOf(v ssa.Value, s *kindState, depth int) wrapState {
 				continue
 			}
 			w := f.wrapOf(e, s, depth+1)
+			if w == wYes {
+				yes = append(yes, e)
+			} else if w == wNo {
+				no = append(no, e)
+			}
 			if n == 0 {
 				res = w
 			} else {
 				res = joinW(res, w)
 			}
 			n++
+		}
+		if res == wMay {
+			// unwrapped on some paths only: one feasible input is the wrapped value itself, another is its unwrapped form
+			for _, y := range yes {
+				for _, u := range no {
+					if unwrappedFormOf(u, y, 0) {
+						return wYes
+					}
+				}
+			}
 		}
 		return res
 	case *ssa.Field:
@@ -527,6 +543,13 @@ func (f *kindFlow) edge(from *ssa.BasicBlock, succ int, s *kindState) (*kindStat
 				if (x.Op == token.EQL) != onTrue {
 					return s, false
 				}
+			}
+			return s, true
+		}
+		// container.Type().Elem() == interfaceType: in the wrapped world the elements of every container are interface slots
+		if (x.Op == token.EQL || x.Op == token.NEQ) && (f.a.isInterfaceTypeValue(x.Y) && isElemTypeOfValue(x.X) || f.a.isInterfaceTypeValue(x.X) && isElemTypeOfValue(x.Y)) {
+			if (x.Op == token.EQL) != onTrue {
+				return s, false
 			}
 			return s, true
 		}
@@ -906,4 +929,32 @@ func (f *kindFlow) decidedFor(v ssa.Value, s *kindState, depth int) (string, boo
 		}
 	}
 	return "", false
+}
+
+// unwrappedFormOf: u is v.Elem(), possibly merged with v itself under the unwrap idiom.
+func unwrappedFormOf(u, v ssa.Value, depth int) bool {
+	if depth > 4 {
+		return false
+	}
+	switch x := u.(type) {
+	case *ssa.Call:
+		return reflectMethod(x) == "Elem" && (x.Call.Args[0] == v || sameCellLoad(x.Call.Args[0], v))
+	case *ssa.Phi:
+		for _, e := range x.Edges {
+			if e != v && unwrappedFormOf(e, v, depth+1) {
+				return true
+			}
+		}
+	}
+	return false
+}
+
+// isElemTypeOfValue: t is v.Type().Elem() for a reflect.Value v (the element type of a container).
+func isElemTypeOfValue(t ssa.Value) bool {
+	c, ok := t.(*ssa.Call)
+	if !ok || !c.Call.IsInvoke() || c.Call.Method.Name() != "Elem" {
+		return false
+	}
+	tc, ok := c.Call.Value.(*ssa.Call)
+	return ok && reflectMethod(tc) == "Type"
 }
